@@ -346,34 +346,45 @@ fn describe(e: &Expected) -> String {
     }
 }
 
-/// Compare one observed outcome with one expectation.
-fn judge(exp: &Expected, obs: &Outcome, err: Option<&darling::Error>, tag: &str, out: &mut Vec<Failure>) {
-    match (exp, obs) {
-        (_, Outcome::Panic(msg)) => match exp {
-            Expected::Panic(k) => out.push(fail("C07.R2", format!("{}panic fault {} fired but a different panic reached the caller: {}", tag, k, msg))),
-            _ => out.push(fail("C07.R1", format!("{}parser panicked: {}", tag, msg))),
-        },
-        (Expected::Panic(k), Outcome::SimPanic(o)) => {
-            if k != o {
-                out.push(fail("C07.R2", format!("{}expected payload {}, got {}", tag, k, o)));
+/// Compare one observed outcome with one expectation. `panic_fired`: the call log shows that a panic
+/// fault actually fired at a seam during this parse.
+fn judge(exp: &Expected, obs: &Outcome, err: Option<&darling::Error>, panic_fired: bool, tolerated: &[Range], tag: &str, out: &mut Vec<Failure>) {
+    // C07: a parse unwinds only with a panic that foreign code started, and then with exactly that one
+    match obs {
+        Outcome::Panic(msg) => {
+            if panic_fired {
+                out.push(fail("C07.R2", format!("{}a panic fault fired but a different panic reached the caller: {}", tag, msg)));
+            } else {
+                out.push(fail("C07.R1", format!("{}parser panicked: {}", tag, msg)));
+            }
+            return;
+        }
+        Outcome::SimPanic(_) => return, // the foreign panic itself, unchanged: nothing else to compare
+        _ => {
+            if panic_fired {
+                out.push(fail("C07.R2", format!("{}a panic fault fired at a seam but the parse returned normally ({})", tag, short(obs))));
+                return;
             }
         }
-        (Expected::Panic(k), other) => out.push(fail("C07.R2", format!("{}panic fault {} should have unwound the parse; got {:?}", tag, k, short(other)))),
-        (_, Outcome::SimPanic(o)) => out.push(fail("C07.R2", format!("{}unexpected simulator panic {} (model did not expect that seam to be reached)", tag, o))),
-        (Expected::NoPanic, _) => {}
+    }
+    match (exp, obs) {
+        // the model expected a panic seam to be reached and it was not: which seams darling calls when
+        // no property depends on it is darling's business; nothing to compare in this run
+        (Expected::Panic(_), _) | (Expected::NoPanic, _) => {}
         (Expected::Value(v), Outcome::Ok(o)) => {
             if v != o {
                 out.push(fail("C02.R1v", format!("{}value differs: expected {:?}, got {:?}", tag, v, o)));
             }
         }
         (Expected::Value(_), Outcome::Err { leaves, .. }) => {
-            out.push(fail("C02.R1", format!("{}input has no mistake and no fault fired, but the parse failed: {:?}", tag, leaves.iter().map(|l| &l.text).collect::<Vec<_>>())));
+            let invented: Vec<&String> = leaves.iter().filter(|l| !matches!(l.span, Some(sp) if tolerated.iter().any(|r| crate::input::contains(*r, sp)))).map(|l| &l.text).collect();
+            out.push(fail("C02.R1", format!("{}input has no mistake and no fault fired, but the parse failed: {:?}", tag, invented)));
         }
         (Expected::Leaves(ls), Outcome::Ok(_)) => {
             out.push(fail("C02.R1", format!("{}parse succeeded although {} leaves were expected: {:?}", tag, ls.len(), ls.iter().map(|l| (&l.msg, &l.path)).collect::<Vec<_>>())));
         }
         (Expected::Leaves(ls), Outcome::Err { len, leaves }) => {
-            let mut fs = oracle::check_leaves(ls, leaves);
+            let mut fs = oracle::check_leaves_tolerating(ls, leaves, tolerated);
             if *len != leaves.len() {
                 fs.push(fail("C02.R3", format!("Error::len() = {} but {} leaves", len, leaves.len())));
             }
@@ -385,6 +396,7 @@ fn judge(exp: &Expected, obs: &Outcome, err: Option<&darling::Error>, tag: &str,
                 out.push(f);
             }
         }
+        (_, Outcome::Panic(_)) | (_, Outcome::SimPanic(_)) => unreachable!("handled above"),
     }
 }
 
@@ -454,10 +466,11 @@ pub fn run(sc: &Scenario, recvs: &'static BTreeMap<&'static str, RecvDesc>) -> J
     };
     j.log = world::take_log();
     j.seam_calls = j.log.len();
-    judge(&exp, &outcome, err.as_ref(), "", &mut j.failures);
+    let panic_fired = j.log.iter().any(|c| c.fired.as_deref() == Some("Panic"));
+    judge(&exp, &outcome, err.as_ref(), panic_fired, &model.may_convert, "", &mut j.failures);
 
     // C02.R6: every input item is handed to exactly as many seam calls as the model says (0 or 1)
-    if !matches!(exp, Expected::Panic(_) | Expected::NoPanic) && !matches!(outcome, Outcome::Panic(_) | Outcome::SimPanic(_)) {
+    if !matches!(exp, Expected::Panic(_) | Expected::NoPanic) && !panic_fired && !matches!(outcome, Outcome::Panic(_) | Outcome::SimPanic(_)) {
         let mut counts: BTreeMap<u32, u32> = BTreeMap::new();
         for c in &j.log {
             if let (Some(id), true) = (c.item, matches!(c.hook.as_str(), "from_meta" | "with" | "from_string" | "from_field" | "from_value" | "from_expr")) {
@@ -466,6 +479,9 @@ pub fn run(sc: &Scenario, recvs: &'static BTreeMap<&'static str, RecvDesc>) -> J
         }
         for (id, n) in &counts {
             let want = model.item_calls.get(id).copied().unwrap_or(0);
+            if model.may_convert_ids.contains(id) && *n <= 1 {
+                continue;
+            }
             if *n != want {
                 j.failures.push(fail("C02.R6", format!("item {} was handed to {} seam calls, expected {}", id, n, want)));
             }
@@ -506,7 +522,7 @@ pub fn run(sc: &Scenario, recvs: &'static BTreeMap<&'static str, RecvDesc>) -> J
         let (exp2, _m2, _) = expect(sc, &doc, recvs, &clean_env);
         if let Ok((out2, err2)) = execute(sc, &di) {
             let mut fs = Vec::new();
-            judge(&exp2, &out2, err2.as_ref(), "[re-parse with faults cleared] ", &mut fs);
+            judge(&exp2, &out2, err2.as_ref(), false, &_m2.may_convert, "[re-parse with faults cleared] ", &mut fs);
             for mut f in fs {
                 f.rule = match f.rule.as_str() {
                     r if r.starts_with("C07") => "C07.R4".to_string(),
